@@ -38,11 +38,13 @@ impl<'a> Kde<'a> {
     pub fn pdf(&self, x: f64) -> f64 {
         let h = self.bandwidth;
 
+        // summed in sample order: a parallel reduction makes the last bits depend on how
+        // rayon splits the work, and the LDA downstream amplifies that into visibly
+        // different discriminant scores between thread counts
         let sum = self
             .sample
-            .par_iter()
-            .fold(|| 0.0, |acc, xi| acc + self.kernel((x - xi) / h))
-            .sum::<f64>();
+            .iter()
+            .fold(0.0, |acc, xi| acc + self.kernel((x - xi) / h));
 
         sum / self.constant
     }
@@ -111,6 +113,7 @@ impl Builder {
 
         // Calculate PEP for 1000 evenly spaced scores
         let mut bins = (0..self.bins)
+            .into_par_iter()
             .map(|bin| {
                 let score = (bin as f64 * score_step) + min_score;
                 let decoy = decoy.pdf(score) * pi;
